@@ -175,7 +175,8 @@ Definition tb_eqb (a b : tb) : bool :=
 (* ---- a live exception as the interpreter reports it ------------------------------ *)
 (* One traceback entry as traceback.extract_tb reports it: file, line number,
    code name, and the raw text of that line from linecache (empty if unavailable).
-   linecache is an oracle of (file name, module globals, time): the text may be reachable
+   linecache is an oracle of (file name -- an arbitrary string, not necessarily a path: '<...>' names of
+   generated code have entries too when their source was registered --, module globals, time): the text may be reachable
    only through the __loader__ of the frame's globals (zip imports, get_source loaders) and
    changes when files change; [lv_raw] is its value for THIS frame's globals at the moment
    of observation.  Callpoint.from_tb/from_frame are modelled as consulting that same
